@@ -1066,6 +1066,12 @@ namespace sim
 		aux::pcap* get_pcap() const { return m_pcap.get(); }
 		void log_pcap(char const* filename);
 
+#ifdef LIBSIMULATOR_VERIF
+		// verification hook: position the ephemeral port counter (e.g. just
+		// before its wrap-around) without performing 60000 binds
+		void verif_set_next_bind_port(std::uint16_t p) { m_next_bind_port = p; }
+#endif
+
 	private:
 		struct timer_compare
 		{
